@@ -262,6 +262,20 @@ func init() {
 			}
 			return e.F.FromIndexInt(cnt, types.Typ[types.Int])
 		},
+		"vGoCount": func(e *Exec, st *State, fn *ssa.Function, args []Val, where string) Val {
+			// number of go statements executed whose string arguments include the given text
+			want, _ := e.concStr(args[0])
+			cnt := e.S.Int(0)
+			for _, ev := range e.Outs {
+				if !strings.HasPrefix(ev.Chan, "go:") {
+					continue
+				}
+				if t, ok := ev.Text.(*StrV); ok && strings.Contains(t.Conc, "|"+want+"|") {
+					cnt = e.S.Add(cnt, e.S.Ite(ev.Guard, e.S.Int(1), e.S.Int(0)))
+				}
+			}
+			return e.F.FromIndexInt(cnt, types.Typ[types.Int])
+		},
 		"vRegister": func(e *Exec, st *State, fn *ssa.Function, args []Val, where string) Val { return nil },
 	}
 }
@@ -606,6 +620,41 @@ func init() {
 			return &Poison{Why: "RuneCountInString"}
 		}
 		return e.F.IntConst(big.NewInt(int64(utf8.RuneCountInString(a[0]))), types.Typ[types.Int])
+	}
+	stubs["strings.FieldsFunc"] = func(e *Exec, st *State, fn *ssa.Function, args []Val, where string) Val {
+		sv, ok := args[0].(*StrV)
+		if !ok {
+			e.unsupported(st, "strings.FieldsFunc on a conditional string at "+where)
+			return &Poison{Why: "FieldsFunc"}
+		}
+		var parts []Val
+		var cur []*Term
+		flush := func() {
+			if len(cur) > 0 {
+				parts = append(parts, e.mkStr(cur))
+				cur = nil
+			}
+		}
+		for _, b := range e.strBytes(sv) {
+			r := e.callResolved(st, nil, args[1], []Val{b}, nil, where)
+			rt, ok := r.(*Term)
+			if !ok {
+				e.unsupported(st, "FieldsFunc predicate result at "+where)
+				return &Poison{Why: "FieldsFunc"}
+			}
+			if !rt.IsConst() {
+				// a symbolic byte must not be a separator (side condition), then it belongs to the field
+				e.side("nosep", st, e.S.Not(rt), where)
+				rt = e.S.False
+			}
+			if rt.IsTrue() {
+				flush()
+			} else {
+				cur = append(cur, b)
+			}
+		}
+		flush()
+		return e.mkSlice(st, types.Typ[types.String], parts)
 	}
 	stubs["strings.Index"] = func(e *Exec, st *State, fn *ssa.Function, args []Val, where string) Val {
 		a, ok := concArgs(e, args)
